@@ -66,7 +66,7 @@ def main():
     replay = sys.argv[sys.argv.index("--replay") + 1] if "--replay" in sys.argv else None
     ck = V.Check("C03", tier)
     rng = ck.rng
-    ck.proof_leg(["Extract/Extract_modulewf.vo"])
+    ck.proof_leg(["Extract/Extract_modulewf.vo", "Extract/Extract_seqscan.vo"])
     drv = V.build_driver("c03_drv", ["c03_drv.c"])
     model = V.ocaml_build("modulewf")
     env = V.san_env()
@@ -211,6 +211,55 @@ def main():
         ck.engine_stat("gate", cases=len(cases), accepted=acc, rejected=rej, disagreements=nd)
         if cases:
             ck.sample({"engine": "gate", "edits": cases[min(3, len(cases) - 1)][0], "base": os.path.basename(cases[0][1])})
+    # ---- (c) the loop of libxmp_scan_sequences: Model/SeqScan.v replayed with what hook H6 reports from the real scan_module calls
+    if not replay or json.load(open(replay)).get("engine") == "seqscan":
+        sdrv = V.build_driver("c03s_drv", ["c03s_drv.c"]); smodel = V.ocaml_build("seqscan")
+        if replay:
+            files = [os.path.join(V.REPO, json.load(open(replay))["file"])]
+        else:
+            files = [f for f in V.corpus_files() if os.path.getsize(f) < 3000000]
+            multi = [os.path.join(V.REPO, "test-dev", "data", x) for x in ("m/IMS.beast-busters1.st", "m/di.nightmare", "m/STIM.intro_1", "m/4th_Symmetriad.it", "scan_240_seq.it", "scan_270_seq.it")]
+            files = [f for f in multi if os.path.exists(f)] + (rng.sample(files, min(len(files), 120)) if tier == "quick" else files)
+        r = V.run([sdrv], inp="\n".join(files) + "\n", env=V.san_env(), timeout=3000)
+        recs = []; cur = []
+        for l in r.stdout.split("\n"):
+            if l.startswith("CALL "): cur.append(l.split()[1:])
+            elif l.startswith("RET "): recs.append((cur, l.split())); cur = []
+        lines = []; meta = []
+        for f, (calls, ret) in zip(files, recs):
+            if not calls: continue
+            ln = len(calls[0][3]) // 2 if calls[0][3] != "-" else 0
+            lines.append("%d | " % ln + " | ".join("%s %s %s %s" % (c[0], c[1], c[2], c[3] if c[3] != "-" else "") for c in calls)); meta.append((f, calls, ret, ln))
+        mo = V.run([smodel], inp="\n".join(lines) + "\n", timeout=3000).stdout.split("\n")
+        sst = {"modules": 0, "scan_calls": 0, "with_several_sequences": 0, "dropped_scans": 0, "load_refused_by_scan": 0, "max_sequences": 0}
+        for (f, calls, ret, ln), m in zip(meta, mo):
+            ck.count(); sst["modules"] += 1; sst["scan_calls"] += len(calls); bad = None
+            w = m.split()
+            if ret[1] != "0":
+                # the load failed: if it failed in the sequence scan the model must refuse too (first scan's time < 0); other failures are not this leg's business
+                if int(calls[0][2]) < 0:
+                    sst["load_refused_by_scan"] += 1
+                    if w and w[0] != "FAIL": bad = "the first scan reported time %s and the load failed, the model's loop accepts" % calls[0][2]
+                if not bad: ck.nontrivial(("seq", f)); continue
+            elif ln == 0: continue
+            elif not w or w[0] == "FAIL": bad = "the module loaded but the model's loop fails the load (first scan time %s)" % calls[0][2]
+            else:
+                nseq = int(ret[7]); pairs = [tuple(int(x) for x in p.split(":")) for p in ret[8:]]
+                sst["max_sequences"] = max(sst["max_sequences"], nseq); sst["with_several_sequences"] += 1 if nseq > 1 else 0; sst["dropped_scans"] += len(calls) - nseq
+                eps = [int(x) for x in w[5].split(",")] if len(w) > 5 and w[5] else []; durs = [int(x) for x in w[6].split(",")] if len(w) > 6 and w[6] else []
+                if ret[3] != "1": bad = "scan_module broke the hypothesis of scan_sequences_wf (its own entry point left unmarked, or an order un-marked)"
+                elif w[1] != "1": bad = "the model's loop asks for a different (entry point, sequence number) than libxmp_scan_sequences did"
+                elif w[2] != "1": bad = "libxmp_scan_sequences made more scan_module calls than the model's loop"
+                elif int(w[4]) != nseq or list(zip(eps, durs)) != pairs: bad = "sequences %s, the model's loop gives %s" % (pairs[:6], list(zip(eps, durs))[:6])
+                elif w[3] != "1": bad = "the sequence table violates the sequence clause (seqs_wfb = false): %s" % pairs[:8]
+            if bad:
+                ck.violation({"engine": "seqscan", "file": os.path.relpath(f, V.REPO), "what": bad, "calls": [c[:3] for c in calls][:12],
+                              "broken": "correspondence: Model/SeqScan.v (loop of libxmp_scan_sequences) vs the loaded module, scan_module's results taken from hook H6"}, key="c03:seq:" + bad.split()[1])
+            else:
+                ck.nontrivial(("seq", f))
+        if r.returncode != 0:
+            ck.violation({"engine": "seqscan", "broken": "sanitizer report / crash in the sequence driver", "stderr": r.stderr[-1500:]}, key="c03-seq-crash")
+        ck.engine_stat("seqscan", **sst)
     ck.cov["rule"] = ("every file of test-dev/data, data/m and openmpt/* loaded by path and (with XMP_SMPCTL_SKIP) through a random stream entry point; core-format modules under all 11 player modes; "
                       "structured mutants (header-field boundary values, truncations, bit flips in the first 2 KiB); every accepted module is dumped under ASan (which validates table sizes and guard frames) and public_wfb is evaluated on the dump")
     ck.assumptions += ["the dump follows every pointer of the public tables: ASan turns an under-allocated table into a crash replay",
